@@ -167,6 +167,29 @@ def run_shard(spec_, res):
             res.count("unsaveable_cases")
             continue
         judge(res, raw, S, c.describe(), "synth:MetaModule-nested")
+    # objects that were LOADED (from SunVox-written fixtures and from generated files), edited in place and written again:
+    # the written file must be just as well-formed and describe the edited object
+    from . import c06
+    import random as _random
+    fx = [f for i, f in enumerate(env.fixtures()) if i % spec_["n_shards"] == spec_["shard"]]
+    for f in fx:
+        name = os.path.relpath(f, env.FIXTURE_DIR)
+        with open(f, "rb") as fh:
+            raw0 = fh.read()
+        for rep in range(2 if tier == "quick" else 8):
+            try:
+                o = workload.load(raw0)
+            except Exception:
+                break
+            applied = c06.mutate_live(o, _random.Random(seed * 1000 + rep + len(raw0)), 6 + rep, prefer=("/options/", "/payload/", "labels"))
+            try:
+                raw = o.read()
+            except Exception as e:
+                res.violation(f"C03:loaded-edited-unsaveable:{workload.exc_key(e)}", f"{name} loaded, edited {applied[:3]}, cannot be saved: {e!r}", {"fixture": name})
+                continue
+            S = snapshot.snap_project(o) if hasattr(o, "modules") else snapshot.snap_synth(o)
+            judge(res, raw, build.norm(S, "before"), {"fixture": name, "edits": applied}, f"loaded+edited:{name}", obj=o if hasattr(o, "modules") else None)
+            res.count("loaded_edited_files")
     if spec_["shard"] == 0:
         res.sample({"origin": "synth:Sampler", "checked": ["chunk stream tiles the file", "400-byte instrument record at documented offsets",
                                                            "44-byte sample headers", "envelope chunks 0x14+4n", "CVAL/CMID counts", "decoded == public state"]})
